@@ -40,8 +40,16 @@ TRUSTED PART (everything else is re-checked by the kernel through the equality t
  * `MODULES`: which source file a module alias of an `import` statement denotes (pure-Python
    configuration: the shim `bezier._helpers` binds `hazmat/helpers.py`).
  * `EXC`: exception class -> `Model.Err` constructor (the message is not modelled).
- * `ABSTRACT` (currently empty): functions that are called but not translated would become explicit
-   parameters of the generated definitions of their callers (like `sqrt`); nothing is assumed about them.
+ * `ABSTRACT`: functions / classes that are CALLED by translated functions but not translated themselves
+   (`newton_iterate`, the constructors `NewtonSimpleRoot(...)`, `NewtonDoubleRoot(...)`) are explicit parameters of the
+   generated definitions of their (transitive) callers, like `sqrt`; the table only fixes their parameter / result
+   kinds (kind EV = an `evaluate_fn` object = `Model.NewtonEval K`); nothing is assumed about them - the theorems
+   state what they need as hypotheses.
+ * methods: `("mod", "Class.method", kinds)` translates `Class.method(self, ...)` as a function of the object's fields
+   (the parameters of `__init__`, which must do nothing but `self.x = x` for each of them) followed by the method's
+   parameters; `self.x` reads the field.  Lean name `Class.call` for `__call__`.
+ * a function name listed twice in `SIGS` keeps its plain Lean name for the first module and is `<module>.<name>` for
+   the others (`intersection_helpers.newton_refine`).
  * the meaning given to the supported NumPy / builtin primitives (`RUNTIME` below and `prim_call`):
    np.min/np.max(axis=1), np.abs/abs, min/max (also on +-inf), np.vdot, np.dot, .T, np.asfortranarray/np.array,
    np.all, np.linalg.norm(ord=2) (= an ABSTRACT `sqrt : K -> K` applied to the sum of squares), np.inf, np.nan,
@@ -67,7 +75,8 @@ TRUSTED PART (everything else is re-checked by the kernel through the equality t
    indexed) returns `Except Err _`; raising sub-computations are sequenced in Python's evaluation order
    with `Rt.bind` (`and` / `or` stay lazy, a lazily evaluated operand of a chained comparison that can
    raise is refused).
- * arrays that the code overwrites in place (`np.empty` + `x[:] = e`, `x[:, 0, :] = e`, `x[:, :, :j] = e`,
+ * arrays that the code overwrites in place (`np.empty` + `x[:] = e`, `x[:, 0, :] = e`, `x[:, :, :j] = e`, a `np.empty((2, 2))` filled by
+   the two column assignments `x[:, :1] = c0`, `x[:, 1:] = c1` - unusable until both are done,
    `np.zeros` + `x += e`) are re-bound; this is sound because such an array must have been created in the
    function and every second name for it (`y = x`, storing it in a tuple / list) is refused.
 
@@ -87,7 +96,7 @@ ACCEPTED PYTHON (per function body; docstrings ignored)
                 names (parameters, locals, numeric module constants), `+ - * /`, unary `-`, `not`,
                 `and` / `or` (short-circuit kept when the right operand can raise), comparisons
                 incl. chains, `v[0]`, `m[i, j]`, `m[:, j]`, `m[:, [j]]`, `m[i, -1]`, `m[:, -1]`, `m[:, lo:hi]`,
-                `lst[i]`, `tup[i]`, tuples, list literals, `[]`, `obj.start/.end/.nodes`, `m.T`, `m.shape`,
+                `m[:, ::-1]`, `lst[i]`, `tup[i]`, tuples, list literals, `[]`, `obj.start/.end/.nodes`, `m.T`, `m.shape`,
                 `Class.ATTR` of a plain class with int attributes (enum),
                 calls of other translated functions (positional arguments) and of the
                 primitives listed above; truth value of a list (`if not lst`).
@@ -137,6 +146,11 @@ SIGS = [
     ("curve_helpers", "evaluate_multi", ["MN", "S1"]),
     ("curve_helpers", "evaluate_hodograph", ["S", "MN"]),
     ("curve_helpers", "newton_refine", ["MN", "C", "S"]),
+    # phase 3
+    ("intersection_helpers", "full_newton_nonzero", ["S", "MN", "S", "MN"]),
+    ("intersection_helpers", "full_newton", ["S", "MN", "S", "MN"]),
+    ("intersection_helpers", "newton_refine", ["S", "MN", "S", "MN"]),
+    ("intersection_helpers", "NewtonSimpleRoot.__call__", ["MN", "MN", "MN", "MN", "S", "S"]),
     ("geometric_intersection", "add_intersection", ["S", "S", ("mlist", ("tuple", ("S", "S")))]),
     ("geometric_intersection", "endpoint_check", ["SUB", "V", "S", "SUB", "V", "S", ("mlist", ("tuple", ("S", "S")))]),
     ("geometric_intersection", "tangent_bbox_intersection", ["SUB", "SUB", ("mlist", ("tuple", ("S", "S")))]),
@@ -152,7 +166,10 @@ MODULES = {
 }
 # functions that are CALLED by translated functions but not translated themselves: the generated definitions of their
 # (transitive) callers take them as an explicit parameter, like `sqrt`; nothing is assumed about them
-ABSTRACT = {
+ABSTRACT = {     # (module, name) -> (parameter kinds, result kind, can raise?)
+    ("intersection_helpers", "NewtonSimpleRoot"): (["MN", "MN", "MN", "MN"], "EV", False),
+    ("intersection_helpers", "NewtonDoubleRoot"): (["MN", "MN", "MN", "MN", "MN", "MN"], "EV", False),
+    ("intersection_helpers", "newton_iterate"): (["EV", "S", "S"], ("tuple", ("B", "S", "S")), True),
 }
 EXC = {"NotImplementedError": "notImplemented", "ValueError": "valueError",
        "RuntimeError": "runtimeError", "UnsupportedDegree": "unsupportedDegree"}
@@ -251,6 +268,15 @@ def slice {α : Type} (r : List α) (lo hi : Option Int) : List α :=
 
 /-- `nodes[:, lo:hi]` of a `d × N` array -/
 def cols (m : List (List K)) (lo hi : Option Int) : List (List K) := m.map fun r => slice r lo hi
+
+/-- a 1-D array / a `d × 1` array used where exactly two entries are required (anything else: `badInput`) -/
+def asPt (v : List K) : Except Err (Pt K) :=
+  match v with
+  | [a, b] => .ok (a, b)
+  | _ => .error .badInput
+
+/-- `nodes[:, ::-1]`: every row reversed -/
+def mrev (m : List (List K)) : List (List K) := m.map List.reverse
 
 /-- entrywise function of a `d × N` array (`c * A`, `A * c`, `np.abs(A)`) -/
 def mmap (f : K → K) (m : List (List K)) : List (List K) := m.map fun r => r.map f
@@ -358,6 +384,12 @@ class Problem(Exception):
     pass
 
 
+def lean_fn_name(mod, fn):
+    first = next(m for m, f, _ in SIGS if f == fn)
+    fn = fn.replace(".__call__", ".call")
+    return fn if first == mod else "%s.%s" % (mod, fn)
+
+
 def lname(n):
     if n == "_":
         return "_"
@@ -402,7 +434,8 @@ def kstr(k):
 def lty(k):
     base = {"S": "K", "B": "Bool", "E": "Nat", "P": "Pt K", "V": "List K", "VB": "List Bool",
             "M22": "List (List K)", "M2N": "List (List K)", "MN": "List (List K)",
-            "I": "Int", "N": "Nat", "X": "Rt.Ext K", "SUB": "Model.SubCurve K", "C": "List K", "S1": "K"}
+            "I": "Int", "N": "Nat", "X": "Rt.Ext K", "SUB": "Model.SubCurve K", "C": "List K", "S1": "K",
+            "EV": "Model.NewtonEval K"}
     if isinstance(k, str) and k in base:
         return base[k]
     if isinstance(k, tuple) and k[0] == "mlist":
@@ -591,6 +624,7 @@ class Module:
         self.aliases = {}      # local name -> module name (source file) or "numpy"
         self.consts = {}       # NAME -> ast expression (module level)
         self.classes = {}      # Class -> {ATTR: int}
+        self.methods = {}      # (Class, method) -> FunctionDef
         for node in self.tree.body:
             if isinstance(node, ast.FunctionDef):
                 self.funcs[node.name] = node
@@ -614,6 +648,9 @@ class Module:
                         attrs[st.targets[0].id] = st.value.value
                 self.classes[node.name] = attrs
                 CLASS_NAMES.add(node.name)
+                for st in node.body:
+                    if isinstance(st, ast.FunctionDef):
+                        self.methods[(node.name, st.name)] = st
 
 
 class Translated:
@@ -761,7 +798,28 @@ class FunctionTranslator:
                 return n
 
     def run(self):
-        node = self.mod.funcs.get(self.fn)
+        self.fields = None
+        if "." in self.fn:
+            # a method `Class.method(self, ...)`: the generated definition takes the fields of the object (the
+            # parameters of `__init__`, which must store each of them as `self.<name> = <name>` and do nothing else)
+            # followed by the parameters of the method; `self.<name>` reads the field
+            cls, meth = self.fn.split(".", 1)
+            node = self.mod.methods.get((cls, meth))
+            init = self.mod.methods.get((cls, "__init__"))
+            if node is None or init is None:
+                raise Problem("method not found in %s.py" % self.modname)
+            ia = init.args
+            fields = [x.arg for x in ia.args][1:]
+            body = [st for st in init.body if not (isinstance(st, ast.Expr) and isinstance(st.value, ast.Constant))]
+            ok = len(body) == len(fields) and not (ia.vararg or ia.kwarg or ia.kwonlyargs or ia.defaults)
+            for st, f in zip(body, fields):
+                ok = ok and isinstance(st, ast.Assign) and len(st.targets) == 1 and \
+                    ast.unparse(st.targets[0]) == "self.%s" % f and ast.unparse(st.value) == f
+            if not ok or not node.args.args or node.args.args[0].arg != "self":
+                raise Problem("__init__ does more than storing its parameters")
+            self.fields = fields
+        else:
+            node = self.mod.funcs.get(self.fn)
         if node is None:
             raise Problem("function not found in %s.py" % self.modname)
         kinds = self.tr.sigs[(self.modname, self.fn)]
@@ -769,6 +827,10 @@ class FunctionTranslator:
         if a.vararg or a.kwarg or a.kwonlyargs or a.posonlyargs:
             raise Problem("unsupported parameter list")
         params = [x.arg for x in a.args]
+        if self.fields is not None:
+            if set(self.fields) & set(params[1:]):
+                raise Problem("a field and a parameter of the method have the same name")
+            params = self.fields + params[1:]
         if len(params) != len(kinds):
             raise Problem("has %d parameters, signature table says %d" % (len(params), len(kinds)))
         if node.decorator_list:
@@ -839,8 +901,9 @@ class FunctionTranslator:
             if x == "sqrt":
                 binders.append("(sqrt : K → K)")
             else:
-                ak, ar = ABSTRACT[x]
-                binders.append("(%s : %s → Except Err %s)" % (x[1], " → ".join(atom(lty(k)) for k in ak), atom(lty(ar))))
+                ak, ar, can_raise = ABSTRACT[x]
+                binders.append("(%s : %s → %s)" % (x[1], " → ".join(atom(lty(k)) for k in ak),
+                                                  ("Except Err %s" % atom(lty(ar))) if can_raise else lty(ar)))
         i = 0
         while i < len(params):            # group consecutive parameters of the same kind
             j = i
@@ -849,7 +912,7 @@ class FunctionTranslator:
             binders.append("(%s : %s)" % (" ".join(lname(p) for p in params[i:j + 1]), lty(kinds[i])))
             i = j + 1
         head = "/-- `%s.%s(%s)` (hazmat/%s.py), parameter kinds %s -/\ndef %s %s : %s :=\n" % (
-            self.modname, self.fn, ", ".join(params), self.modname, " ".join(kstr(k) for k in kinds), self.fn, " ".join(binders),
+            self.modname, self.fn, ", ".join(params), self.modname, " ".join(kstr(k) for k in kinds), lean_fn_name(self.modname, self.fn), " ".join(binders),
             ("Except Err %s" % atom(rty)) if monadic else rty)
         dtext = "".join("/-- default value of parameter `%s` of `%s` -/\ndef %s_default_%s : Rat := %s\n\n"
                         % (p, self.fn, self.fn, p, "(%d : Rat) / %d" % (v.numerator, v.denominator))
@@ -1251,6 +1314,30 @@ class FunctionTranslator:
         if isinstance(target.value, ast.Name) and isinstance(self.prealloc.get(target.value.id), tuple) \
                 and isinstance(sl, ast.Tuple) and len(sl.elts) == 3 and is_full(sl.elts[0]):
             return self.wide_assign(target.value.id, sl.elts[1], sl.elts[2], value, rest, env, k, where)
+        if isinstance(target.value, ast.Name) and self.prealloc.get(target.value.id) == "J22" \
+                and isinstance(sl, ast.Tuple) and len(sl.elts) == 2 and is_full(sl.elts[0]) \
+                and isinstance(sl.elts[1], ast.Slice) and sl.elts[1].step is None:
+            # a 2 x 2 array filled by columns: `x[:, :1] = c0`, `x[:, 1:] = c1` with d x 1 arrays c0, c1 (d must be 2)
+            lo, hi = sl.elts[1].lower, sl.elts[1].upper
+            col = 0 if (lo is None and self.const_int(hi) == 1) else 1 if (hi is None and self.const_int(lo) == 1) else None
+            name = target.value.id
+            binds, v = self.tx(value, env)
+            if col is None or v.kind != "C":
+                raise Problem("assignment target %s / value of kind %r (%s)" % (ast.unparse(target), v.kind, where))
+            t = self.tmp()
+            binds.append(("bind", t, "Rt.asPt %s" % atom(v.code)))
+            cur = dict(env[name].cols) if name in env and env[name].kind == "J22" else {}
+            cur[col] = t
+            env2 = dict(env)
+            if len(cur) == 2:
+                cells = [["%s.1" % cur[0], "%s.1" % cur[1]], ["%s.2" % cur[0], "%s.2" % cur[1]]]
+                code = "[[%s, %s], [%s, %s]]" % (cells[0][0], cells[0][1], cells[1][0], cells[1][1])
+                env2[name] = Val("M22", lname(name), cells=None)
+                return wrap(binds, Let(lname(name), code, self.block(rest, env2, k)))
+            part = Val("J22", "?")
+            part.cols = cur
+            env2[name] = part
+            return wrap(binds, self.block(rest, env2, k))
         if not (isinstance(target.value, ast.Name) and full and target.value.id in self.prealloc):
             raise Problem("assignment target %s (%s)" % (ast.unparse(target), where))
         name = target.value.id
@@ -1495,6 +1582,10 @@ class FunctionTranslator:
             return Val("N", self.as_nat(v))
         if kind == "X" and v.kind == "S":
             return Val("X", "Rt.Ext.fin %s" % atom(v.code))
+        if kind == "P" and v.kind in ("V", "C"):
+            t = self.tmp()
+            binds.append(("bind", t, "Rt.asPt %s" % atom(v.code)))
+            return Val("P", t)
         if is_list(kind) and is_list(v.kind) and v.kind[1] is None:
             return Val(kind, "(%s : %s)" % (v.code, lty(kind)))
         if is_opt(v.kind) and v.kind[1] == kind:
@@ -1531,6 +1622,11 @@ class FunctionTranslator:
                 binds += b
                 cs.append(self.as_scalar(binds, v, "entry of a list of numbers (%s)" % where).code)
             return binds, Val("V", "[" + ", ".join(cs) + "]")
+        if isinstance(node, ast.Attribute) and isinstance(node.value, ast.Name) and node.value.id == "self" \
+                and self.fields is not None and "self" not in env:
+            if node.attr in self.fields and node.attr in env:
+                return [], env[node.attr]
+            raise Problem("attribute %s (%s)" % (ast.unparse(node), where))
         if isinstance(node, ast.Attribute):
             if not (isinstance(node.value, ast.Name) and node.value.id not in env):
                 return self.attribute(node, env, where)
@@ -1562,6 +1658,8 @@ class FunctionTranslator:
                     return binds, Val("X", "Rt.Ext.neg %s" % atom(v.code))
                 if v.kind in ("I", "N"):
                     return binds, Val("I", "-%s" % atom(self.as_int(v)))
+                if v.kind == "C":
+                    return binds, Val("C", "List.map (fun x => -x) %s" % atom(v.code))
                 v = self.need(binds, v, "S", "operand of unary - (%s)" % where)
                 return binds, Val("S", "-%s" % atom(v.code))
             if isinstance(node.op, ast.Not):
@@ -1670,6 +1768,9 @@ class FunctionTranslator:
                 and len(node.args[0].elts) == 1 and self.const_int(node.args[0].elts[0]) == 2:
             return "P"
         if len(node.args) == 1 and set(kw) <= {"order"} and isinstance(node.args[0], ast.Tuple) \
+                and [self.const_int(e) for e in node.args[0].elts] == [2, 2]:
+            return "J22"
+        if len(node.args) == 1 and set(kw) <= {"order"} and isinstance(node.args[0], ast.Tuple) \
                 and len(node.args[0].elts) == 3 and env is not None:
             vals = []
             for e in node.args[0].elts:
@@ -1696,6 +1797,9 @@ class FunctionTranslator:
             t = self.tmp()
             binds.append(("bind", t, "Rt.vzip (fun x y => decide (x ≤ y)) %s %s" % (atom(vals[0].code), atom(vals[1].code))))
             return binds, Val("VB", t)
+        if len(vals) == 2 and vals[0].kind in ("C", "V") and isinstance(node.ops[0], ast.Eq) \
+                and vals[1].kind == "S":
+            return binds, Val("VB", "List.map (fun x => decide (x = %s)) %s" % (atom(vals[1].code), atom(vals[0].code)))
         if any(v.kind == "X" for v in vals):
             codes = []
             for op, a, b in zip(node.ops, vals, vals[1:]):
@@ -1867,6 +1971,9 @@ class FunctionTranslator:
             return binds, Val(base.kind[1], t)
         if base.kind == "MN" and isinstance(sl, ast.Tuple) and len(sl.elts) == 2 and isinstance(sl.elts[1], ast.Slice):
             first, second = sl.elts
+            if isinstance(first, ast.Slice) and first.lower is None and first.upper is None and first.step is None \
+                    and second.lower is None and second.upper is None and self.const_int(second.step) == -1:
+                return binds, Val("MN", "Rt.mrev %s" % atom(base.code))          # nodes[:, ::-1]
             if not (isinstance(first, ast.Slice) and first.lower is None and first.upper is None and first.step is None) \
                     or second.step is not None:
                 raise Problem("subscript %s (%s)" % (ast.unparse(node), where))
@@ -1945,7 +2052,7 @@ class FunctionTranslator:
         f = node.func
         target = None          # ("fn", module, name) | ("np", dotted) | ("builtin", name)
         if isinstance(f, ast.Name) and f.id not in env:
-            if f.id in self.mod.funcs:
+            if f.id in self.mod.funcs or (self.modname, f.id) in ABSTRACT:
                 target = ("fn", self.modname, f.id)
             elif f.id in ("abs", "min", "max", "len", "float"):
                 target = ("builtin", f.id)
@@ -1978,7 +2085,7 @@ class FunctionTranslator:
             self.extra.sort(key=lambda y: (y != "sqrt", y))
 
     def abstract_call(self, node, mod, fn, env, where):
-        kinds, ret = ABSTRACT[(mod, fn)]
+        kinds, ret, can_raise = ABSTRACT[(mod, fn)]
         if node.keywords or len(node.args) != len(kinds):
             raise Problem("call of %s with this argument list (%s)" % (fn, where))
         binds, args = [], []
@@ -1988,10 +2095,14 @@ class FunctionTranslator:
             want = "S" if kd == "S1" else kd
             if kd == "S1" and not v.unit:
                 raise Problem("argument of %s must be a one-entry array (%s)" % (fn, where))
+            if want == "S":
+                v = self.as_scalar(binds, v, "argument of %s (%s)" % (fn, where))
             if v.kind != want:
                 raise Problem("argument of %s: kind %r where %r is required (%s)" % (fn, v.kind, kd, where))
             args.append(atom(v.code))
         self.use_extra((mod, fn))
+        if not can_raise:
+            return binds, Val(ret, "%s %s" % (fn, " ".join(args)))
         t = self.tmp()
         binds.append(("bind", t, "%s %s" % (fn, " ".join(args))))
         return binds, Val(ret, t)
@@ -2037,7 +2148,7 @@ class FunctionTranslator:
         for x in callee.uses_sqrt:
             self.use_extra(x)
         args = [x if x == "sqrt" else x[1] for x in callee.uses_sqrt] + args
-        code = "%s %s" % (fn, " ".join(args))
+        code = "%s %s" % (lean_fn_name(mod, fn), " ".join(args))
         if callee.monadic:
             t = self.tmp()
             binds.append(("bind", t, code))
@@ -2199,6 +2310,7 @@ import BezierVerif.Model.Curve
 import BezierVerif.Model.Solve2x2
 import BezierVerif.Model.Helpers
 import BezierVerif.Model.Geometric
+import BezierVerif.Model.Newton
 
 set_option linter.unusedVariables false
 
